@@ -1,6 +1,10 @@
 package test
 
 import (
+	chunk "github.com/ipfs/boxo/chunker"
+	mrand "math/rand"
+	"sort"
+	"io"
 	"bytes"
 	"strconv"
 
@@ -119,17 +123,46 @@ func VerifFileStructure() {
 	if n > 0 && K > 1 {
 		L -= verifrt.Choose(K)
 	}
-	content := verifrt.Bytes(L)
-	if verifrt.Param("distinct", 1) == 1 {
-		assumeDistinctChunks(content, K)
-	}
+	chunker := "size-" + strconv.Itoa(K)
+	var content []byte
 	var chunks [][]byte
-	for i := 0; i < L; i += K {
-		chunks = append(chunks, content[i:min(L, i+K)])
+	if verifrt.Param("varchunks", 0) == 1 && n > 0 {
+		// ANY splitter: the content is cut into n chunks of explorer-chosen sizes 1..3 (what a
+		// content-defined chunker does); chunks of equal size may or may not be equal
+		sizes := make([]int, n)
+		L = 0
+		for i := range sizes {
+			sizes[i] = 1 + verifrt.Choose(3)
+			L += sizes[i]
+		}
+		content = verifrt.Bytes(L)
+		at := 0
+		for _, sz := range sizes {
+			chunks = append(chunks, content[at:at+sz])
+			at += sz
+		}
+		if verifrt.Native() {
+			// the same size / equality pattern realised with the real rabin chunker
+			content, chunks, chunker = realiseWithRabin(chunks)
+			L = len(content)
+		} else {
+			verifrt.Replace("github.com/ipfs/boxo/chunker.FromString", func(r io.Reader, _ string) (chunk.Splitter, error) {
+				return &modelSplitter{r: r, sizes: sizes}, nil
+			})
+		}
+		verifrt.Reach("variable-chunks")
+	} else {
+		content = verifrt.Bytes(L)
+		if verifrt.Param("distinct", 1) == 1 {
+			assumeDistinctChunks(content, K)
+		}
+		for i := 0; i < L; i += K {
+			chunks = append(chunks, content[i:min(L, i+K)])
+		}
 	}
 	st := verifmodel.NewStore()
 	ls := st.LinkSystem()
-	lnk, size, err := builder.BuildUnixFSFile(bytes.NewReader(content), "size-"+strconv.Itoa(K), ls)
+	lnk, size, err := builder.BuildUnixFSFile(bytes.NewReader(content), chunker, ls)
 	verifrt.Assert(err == nil && lnk != nil, "build-ok")
 	if n == 0 {
 		blk, ok := st.Get(lnk.Binary())
@@ -143,4 +176,90 @@ func VerifFileStructure() {
 	verifrt.Assert(size == res.stored, "size:returned=cumulative")
 	verifrt.Assert(res.bytes == uint64(L), "size:total-bytes")
 	verifrt.Reach("end")
+}
+
+// modelSplitter cuts its input at the given sizes (stands for any chunker).
+type modelSplitter struct {
+	r     io.Reader
+	sizes []int
+	i     int
+}
+
+func (m *modelSplitter) Reader() io.Reader { return m.r }
+func (m *modelSplitter) NextBytes() ([]byte, error) {
+	if m.i >= len(m.sizes) {
+		return nil, io.EOF
+	}
+	b := make([]byte, m.sizes[m.i])
+	m.i++
+	if _, err := io.ReadFull(m.r, b); err != nil {
+		return nil, err
+	}
+	return b, nil
+}
+
+// realiseWithRabin (native replay only) builds real content that the real
+// "rabin-16-32-64" chunker cuts into chunks with the same pattern of sizes and
+// equalities as `model`: a library of chunks is harvested from the chunker's own output
+// over pseudo-random data (the rolling hash restarts at every cut, so a harvested chunk is
+// cut again at its end wherever it is placed); the three model sizes are mapped to the
+// three most frequent real lengths.
+func realiseWithRabin(model [][]byte) ([]byte, [][]byte, string) {
+	const spec = "rabin-16-32-64"
+	rng := mrand.New(mrand.NewSource(7))
+	data := make([]byte, 1<<16)
+	rng.Read(data)
+	sp, err := chunk.FromString(bytes.NewReader(data), spec)
+	verifrt.Assert(err == nil, "harness:rabin")
+	lib := map[int][][]byte{}
+	for {
+		c, err := sp.NextBytes()
+		if err != nil {
+			break
+		}
+		lib[len(c)] = append(lib[len(c)], append([]byte{}, c...))
+	}
+	// real lengths with enough distinct chunks, most frequent first
+	var lens []int
+	for l, cs := range lib {
+		if len(cs) >= len(model) && l < 64 {
+			lens = append(lens, l)
+		}
+	}
+	sort.Slice(lens, func(i, j int) bool {
+		if len(lib[lens[i]]) != len(lib[lens[j]]) {
+			return len(lib[lens[i]]) > len(lib[lens[j]])
+		}
+		return lens[i] < lens[j]
+	})
+	verifrt.Assert(len(lens) >= 3, "harness:rabin-library")
+	var content []byte
+	var chunks [][]byte
+	used := map[int]int{}
+	for i, m := range model {
+		l := lens[len(m)-1]
+		var pick []byte
+		for j := 0; j < i; j++ {
+			if bytes.Equal(model[j], m) {
+				pick = chunks[j]
+			}
+		}
+		if pick == nil {
+			pick = lib[l][used[l]]
+			used[l]++
+		}
+		chunks = append(chunks, pick)
+		content = append(content, pick...)
+	}
+	// the real chunker must cut the assembled content exactly there
+	sp, _ = chunk.FromString(bytes.NewReader(content), spec)
+	for i := 0; ; i++ {
+		c, err := sp.NextBytes()
+		if err != nil {
+			verifrt.Assert(i == len(chunks), "harness:rabin-cuts-as-assembled")
+			break
+		}
+		verifrt.Assert(i < len(chunks) && bytes.Equal(c, chunks[i]), "harness:rabin-cuts-as-assembled")
+	}
+	return content, chunks, spec
 }
